@@ -25,6 +25,8 @@ Coordinate values/attributes are produced by xarray (not decided); for the name 
 """
 from __future__ import annotations
 
+import copy
+
 from ..absint import TOP, Evaluator, Obj, Sym, Unmodelled
 from ..harness import BecomesDataset, coord_tracking_models, run_apply
 from ..xmodel import dimsym, make_da, make_grid
@@ -228,6 +230,48 @@ def _reattach(ctx, P):
         else:
             ctx.ok("R19.2", inst, "grid coordinates that fit the result" + ("" if keep else ", non-dimension coordinates dropped"))
     _reattach_every_result(ctx, P, fi, models, ds_coords, res_dims, want_assigned)
+    # ... and as apply_as_grid_ufunc calls it (whatever it hands over besides the results): on the padded and on the unpadded path
+    # a result that carries nothing comes back with the grid's coordinates on *all* its dimensions, not only on the new one
+    from ..harness import apply_attr_models, apply_models, da_method_models
+
+    afi = P.func("grid_ufunc:apply_as_grid_ufunc")
+    for keep in (True, False):
+        for pname, bw in (("no boundary_width (nothing is padded)", None), ("zero widths", {"X": (0, 0)}), ("padded", {"X": (1, 0)})):
+            inst = f"apply_as_grid_ufunc -> _reattach_coords, keep_coords={keep}, {pname}"
+            mods = {k: v for k, v in apply_models().items() if k != "grid_ufunc:_reattach_coords"}
+            mods["warnings.warn"] = lambda ev, a, k, n: None
+            mm = dict(da_method_models())
+            mm.update(models())
+            am = apply_attr_models()
+            am[("DataArray", "coords")] = lambda ev, o, n: dict(o.attrs.get("coords", {}))
+            ev = Evaluator(P, models=mods, method_models=mm, attr_models=am)
+
+            def make():
+                g = make_grid(("AX", "AY"), ds=Obj("Dataset", "grid_ds", (), {"coords": dict(ds_coords)}))
+                return dict(func=Obj("func", "userfunc"), args=(make_da("da", [T, XC]),), axis=[(AX,)], grid=g, signature="(X:center)->(X:left)", boundary_width=copy.deepcopy(bw),
+                            boundary="extend", fill_value=None, keep_coords=keep, dask="forbidden", map_overlap=False, pad_before_func=True, other_component=None, kwargs={})
+
+            try:
+                outs = ev.run_paths(afi, make)
+            except Unmodelled as e:
+                ctx.unknown("R19.2", inst, str(e))
+                continue
+            bad = None
+            want = {XL, T, Sym("scalar")} if keep else {XL, T}
+            for o in outs:
+                v = o.value
+                if o.kind != "return" or not isinstance(v, Obj):
+                    bad = f"{o.kind} {o.value!r}"
+                    continue
+                got = set(v.attrs.get("coords", {}))
+                if got != want:
+                    extra, missing = got - want, want - got
+                    bad = (f"the result (dimensions t and the new X position) carries coordinates {sorted(map(repr, got))}; " + (f"unexpected {sorted(map(repr, extra))} " if extra else "") +
+                           (f"missing {sorted(map(repr, missing))} " if missing else "") + "(the grid dataset's coordinates whose dimensions all occur in the result" + ("" if keep else ", minus non-dimension ones") + ")")
+            if bad:
+                ctx.report("R19.2", afi, inst, bad)
+            else:
+                ctx.ok("R19.2", inst, "grid coordinates on every dimension of the result")
 
 
 def _reattach_every_result(ctx, P, fi, models, ds_coords, res_dims, want_assigned):
